@@ -51,7 +51,7 @@ def check_matrix_cache(prog, ctx, rule):
         else:
             kargs = kcall[0][2]
             pts = [a for a in kargs if a[0] == "s" and a[2][0] == "n"]
-            if [a[2][1] for a in pts] != ij:
+            if list(dict.fromkeys(a[2][1] for a in pts)) != ij:
                 problems.append("the key is computed for points %s, the loops run over %s" % ([show(a) for a in pts], ij))
         # value: every definition reaching the store is computed from the same pair and contains no lambda
         if isinstance(valn, ast.Name):
